@@ -19,6 +19,7 @@ WORKLOADS = {
     "overlap": [{"a": "x", "b": "y"}, {"a": "x", "c": "z"}],
     "twopaths": [{"p": "w", "q": "w"}, {"r": "w", "a": "x"}],
     "three": [{"a": "x", "b": "y"}, {"a": "x", "c": "z"}, {"c": "z", "d": "y"}],
+    "swapped": [{"a": "x", "b": "y"}, {"a": "y", "b": "x"}],   # same names, same contents, crossed
 }
 
 
@@ -325,8 +326,10 @@ def configs(tier):
         yield {"workload": "three", "mode": "threads", "first": None, "caps": False}, 1
     # upload staging: files are first uploaded to temporary names inside the shared store
     for mode in ("threads", "procs"):
-        yield {"workload": "overlap", "mode": mode, "first": None, "caps": False, "upload": True}, \
-            (2 if tier == "thorough" and mode == "threads" else 1)
+        for name in ("overlap", "swapped"):
+            yield {"workload": name, "mode": mode, "first": None, "caps": False, "upload": True}, \
+                (2 if tier == "thorough" and mode == "threads" else 1)
+    yield {"workload": "swapped", "mode": "threads", "first": None, "caps": False}, 1
     # fine-grained pass: events on the writers' private workspaces are scheduling points too, so that the
     # staging phases (which touch only memory and private files) interleave as well
     for name in wl:
